@@ -64,6 +64,11 @@ def gen_text(r) -> str:
     k = r.random()
     if k < 0.08:
         return ""
+    if k < 0.105:
+        # long texts: many lines, many control characters, lengths on either side of the powers of two an implementation may carry inside
+        n = r.choice([255, 256, 257, 300, 1023, 1025])
+        unit = r.choice(["l\r\n", "\x07", "a\n", "\v", "_x000D_", "x\r", "é\t"])
+        return (unit * n)[: r.choice([n, n * len(unit)])]
     if k < 0.16:
         return r.choice([" ", "  ", "\t", " \t ", "\n", "\v", "\n\n", "\v\v", "\n\v\n", " \n ", "\n ", " \v"])
     parts = []
@@ -421,6 +426,7 @@ def gen_trace(seed: int, tier: str) -> dict:
         seed, fault_rate=common.fault_arm(seed), n_events=n, families=["c04", "text", "tables", "geometry", "dml"], always=("c04", "text"),
         ckpt=0.08, reopen=0.08, restart=0.04, observe=0.02, jump=0.0, fork=0.03,
         op_filter=lambda name: name not in ("cell_merge", "cell_split", "bad_call"))
+    common.rewritten_between_sessions(seed, events, hows=("bool_words", "strip_cell_txBody", "strip_tblPr"))
     # warm-up for table cells and notes
     return {"property": ID, "seed": seed, "tier": tier, "config": {"families": sw["families"], "max_slides": 6, "max_shapes": 20},
             "start": [start], "events": events}
@@ -496,4 +502,22 @@ def pinned_traces(tier):
         evs.append({"op": "c04.assign", "slide": sl_, "shape": sh_, "target": "ph", "level": "frame", "para": 0, "run": 0, "r": 0, "c": 0, "text": "deck text %d" % k})
     evs += [{"op": "checkpoint", "sink": "seekable"}, {"op": "restart"}]
     out.append({"property": ID, "seed": "placeholders-without-text-body", "tier": "pinned", "config": {"pinned": True}, "start": [{"deck": "default"}], "events": evs})
+    # table cells without a text body (another producer omits the optional a:txBody of empty cells): each cell assigned, at every level
+    evs = list(base) + [{"op": "checkpoint", "sink": "seekable"}, {"op": "restart", "xform": [{"kind": "rewrite_slides", "how": "strip_cell_txBody"}]}]
+    k = 0
+    for lvl in ("frame", "frame", "para", "frame"):
+        for r_, c_ in ((0, 0), (0, 1), (1, 0), (1, 1)):
+            evs.append({"op": "c04.assign", "slide": 0, "shape": 0, "target": "cell", "level": lvl, "para": 0, "run": 0, "r": r_, "c": c_, "text": "cell %d\n%s" % (k, lvl)})
+            k += 1
+    evs += [{"op": "checkpoint", "sink": "seekable"}, {"op": "restart", "xform": [{"kind": "rewrite_slides", "how": "bool_words"}]}]
+    out.append({"property": ID, "seed": "cells-without-text-body", "tier": "pinned", "config": {"pinned": True}, "start": [{"deck": "default"}], "events": evs})
+    # more than 256 escapable control characters in one run / paragraph / frame / cell
+    for tgt in ("sp", "cell"):
+        evs = list(base)
+        for lvl in ("run", "para", "frame"):
+            for unit, n in (("l\r\n", 300), ("\x07", 257), ("\x0b", 600), ("\r", 256)):
+                evs.append({"op": "c04.assign", "slide": 0, "shape": 0, "target": tgt, "level": lvl, "para": 0, "run": 0, "r": 0, "c": 0, "text": unit * n})
+            evs.append({"op": "checkpoint", "sink": "seekable"})
+        evs.append({"op": "restart"})
+        out.append({"property": ID, "seed": "many-control-characters-%s" % tgt, "tier": "pinned", "config": {"pinned": True}, "start": [{"deck": "default"}], "events": evs})
     return out
